@@ -582,7 +582,7 @@ PROPS.update({
         l1=[('basic', 3000, 100000), ('cmpN', 2000, 50000), ('ext', 24000, 640000)],
         labels=r':(Clone|Debug|Default|PartialEq|Eq|PartialOrd|Ord|Hash)(#1)?$',
         kinds=('panic', 'nondet', 'parse', 'count', 'class'),
-        extra=extras(extra_twins(1200, 24000), extra_rustc(l2gen.gen_lint_plain_case, 160, 3000)),
+        extra=extras(extra_twins(1200, 24000), extra_rustc(l2gen.gen_lint_plain_case, 160, 3000), extra_programs(l2gen.gen_macro_twin_program, 80, 1600, per=40, what='an item that comes out of a macro_rules! macro is derived differently by the attribute macro, by #[derive(Ex)] and by the standard derive')),
         level_text='Lean corollaries: for attribute-free items the documented rule proved in C01/C06/C07/C10/C11 is the standard derive\'s rule; L2: twin programs (same definition under derive_ex and under derive) over a shape grammar incl. empty enums, unsized tails, raw identifiers, lifetimes, const parameters, parameter defaults; all values / pairs, ten format specs, clone_from over all pairs; the compile-on-every-shape part is decided by rustc, not by a theorem',
     ),
     'C13': dict(
@@ -637,7 +637,7 @@ PROPS.update({
                                    'DX.enum_entry_codrived_independent', 'DX.structCore_entries', 'DX.agreeOn_of_noneOnlyForOthers'])],
         l1=[('all', 4000, 150000), ('cmp1all', 20000, 'all'), ('bounds', 2000, 50000), ('ext', 24000, 640000)],
         labels=r'^e\d+:|^err$',
-        extra=extra_meta('c15', 3000, 60000),
+        extra=extras(extra_meta('c15', 3000, 60000), extra_programs(l2gen.gen_macro_twin_program, 80, 1600, per=40, what='an item that comes out of a macro_rules! macro is derived differently by the attribute macro, by #[derive(Ex)] and by the standard derive')),
     ),
     'C16': dict(
         explanation="theorems: the model is a total function (accepted by Lean's termination checker) whose output is a list of items or error segments and is deterministic. Transfer to the implementation: catch_unwind around every expansion of every L1 case, each expanded twice; structure-aware mutation fuzzer over the test-suite / documentation corpus with rustc's parser as second opinion.",
